@@ -1,9 +1,22 @@
-"""C09 part 2 — concurrent downloads of equally named files never share a local path (DESIGN §3 C09)."""
+"""C09 part 2 — concurrent downloads of equally named files never share a local path (DESIGN §3 C09).
+
+Case = 2..3 downloads of an equally named file from different scripted uploaders through the real TransferManager:
+request / start offsets, file sizes, executor delay (slow disk), pre-existing files, bandwidth limit, a first attempt
+that breaks before its first byte, a change of settings.shares.download in between, and a user action (abort / pause /
+remove, optionally queue again) on the download that holds the path lock or on one that waits for it.  Oracle: no two
+active downloads share a local path at any sampled instant, COMPLETE files equal their source, completed downloads
+have distinct paths, every path lies in the directory configured when it was chosen, nothing appears outside the
+download directories, pre-existing files keep their content, no download is left INITIALIZING / DOWNLOADING without a
+task, no exception is lost in the loop.  Note: the arrival order of requests delivered in the same virtual instant
+is decided inside the library / loop and can differ between processes; roles (holder / waiter) are therefore resolved
+at run time, not fixed by index.
+"""
 from __future__ import annotations
 
 import asyncio
 import os
 import shutil
+import sys
 import tempfile
 
 from hypothesis import strategies as st
@@ -16,6 +29,13 @@ OFFSETS_MS = [0, 0, 0, 0.1, 0.5, 1, 5, 25, 40, 70, 100]
 EXEC_DELAYS = [0.0, 0.0, 0.0005, 0.002, 0.02]
 # the user re-configures settings.shares.download while downloads come and go (virtual ms after the first download call)
 SWITCH_MS = [None, None, None, 5, 20, 50, 60, 90]
+# user action on one of the downloads, triggered by the k-th path calculation (= a download holds the path lock
+# between 'path chosen' and 'placeholder created' while the others wait for the lock): after delay_ms of virtual time
+# plus `iters` loop iterations the download `who` is aborted / paused / removed; optionally queued again later
+# (`who` is a role: 0 = the holder of the lock, 1 / 2 = first / last waiting download, see user_action)
+ACT_KINDS = ['abort', 'pause', 'remove']
+ACT_DELAYS_MS = [0, 0, 0.05, 0.3, 0.5, 1, 1.5, 3, 10, 19, 25]
+ACT_RESUME_MS = [None, None, 5, 30, 100, 300]
 
 
 @st.composite
@@ -40,6 +60,10 @@ def conc_case(draw):
         'switch_ms': draw(st.sampled_from(SWITCH_MS)),
         'switch_rel': draw(st.booleans()),
         'rel0': draw(st.sampled_from([False, False, True])),
+        'act': draw(st.none() | st.fixed_dictionaries({
+            'kind': st.sampled_from(ACT_KINDS), 'who': st.integers(0, 2), 'after_call': st.integers(0, 2),
+            'delay_ms': st.sampled_from(ACT_DELAYS_MS), 'iters': st.integers(0, 3),
+            'resume_ms': st.sampled_from(ACT_RESUME_MS)})),
     }
 
 
@@ -66,6 +90,19 @@ def enumerated():
                 yield {'t': 'conc', 'name': name, 'n': n, 'download_at': dl_at, 'start_at': [0] * n,
                        'sizes': [300] * n, 'exec_delay': 0.0, 'pre': 'none' if rel0 else 'file', 'limited': False,
                        'same_dir': True, 'switch_ms': sw, 'switch_rel': switch_rel, 'rel0': rel0}
+    # three equally named downloads starting together on a slow disk; while one of them holds the path lock
+    # (path chosen, placeholder not created yet) the holder or one of the waiting downloads is aborted / paused /
+    # removed, optionally resumed later; a further download arrives (already waiting or 3 / 30 ms later)
+    for ed in (0.002, 0.02):
+        for kind in ACT_KINDS:
+            for who in (0, 1, 2):
+                for after_call, delay_ms in ((0, 0), (0, ed * 500), (1, ed * 500)):
+                    for third in (0, 3, 30):
+                        resume = None if kind == 'remove' else (100 if third == 0 else 30)
+                        yield {'t': 'conc', 'name': NAMES[0], 'n': 3, 'download_at': [0, 0, 0], 'start_at': [0, 0, third],
+                               'sizes': [9000, 9000, 9000], 'exec_delay': ed, 'pre': 'none', 'limited': third == 3,
+                               'same_dir': True, 'act': {'kind': kind, 'who': who, 'after_call': after_call,
+                                                         'delay_ms': delay_ms, 'iters': 0, 'resume_ms': resume}}
     # three downloads, two starting together and the third arriving while the second is still starting up
     # (slow executor: every file-system step takes 2 / 20 ms)
     for ed in (0.002, 0.02):
@@ -96,6 +133,14 @@ def run_conc_case(case, res: CaseResult):
     switch_s = None if case.get('switch_ms') is None else _num(case.get('switch_ms'), 0, 200, 50) / 1000.0
     switch_rel = bool(case.get('switch_rel'))
     rel0 = bool(case.get('rel0'))
+    act = case.get('act') if isinstance(case.get('act'), dict) else None
+    if act is not None:
+        act = {'kind': act.get('kind') if act.get('kind') in ACT_KINDS else 'abort',
+               'who': int(_num(act.get('who', 0), 0, 2, 0)) % n,
+               'after_call': int(_num(act.get('after_call', 0), 0, 3, 0)),
+               'delay': _num(act.get('delay_ms', 0), 0, 50, 0) / 1000.0,
+               'iters': int(_num(act.get('iters', 0), 0, 5, 0)),
+               'resume': None if act.get('resume_ms') is None else _num(act.get('resume_ms'), 1, 1000, 100) / 1000.0}
     tmp = tempfile.mkdtemp(prefix='vfw-c09-', dir='/dev/shm' if os.path.isdir('/dev/shm') else None)
     out = {}
     try:
@@ -147,6 +192,51 @@ def run_conc_case(case, res: CaseResult):
             shares = client.shares
             real_calculate = shares.calculate_download_path
 
+            async def user_action():
+                for _ in range(act['iters']):
+                    await asyncio.sleep(0)
+                # `who` is a role, resolved at this instant (the arrival order of same-instant requests is not part of
+                # the case): 0 = the download that holds the path lock (its path is the one chosen last), 1 / 2 = the
+                # first / last download (by index) that is INITIALIZING without a path (waiting for the lock or for its
+                # file connection); if nobody has that role: the download with that index
+                live = [(i, t) for i, t in enumerate(transfers) if t is not None]
+                last_path = chosen[-1][1] if chosen else None
+                holders = [i for i, t in live if t.state.VALUE.name == 'INITIALIZING' and
+                           (i == out.get('holder') or (out.get('holder') is None and t.local_path == last_path))]
+                waiters = [i for i, t in live if t.state.VALUE.name == 'INITIALIZING' and t.local_path is None]
+                if act['who'] == 0 and holders:
+                    who = holders[0]
+                elif act['who'] == 1 and waiters:
+                    who = waiters[0]
+                elif act['who'] == 2 and waiters:
+                    who = waiters[-1]
+                else:
+                    who = act['who']
+                out['who'] = who
+                t = transfers[who]
+                if t is None:                      # not requested yet
+                    return
+                out['act_on'] = (t.state.VALUE.name, t.local_path is not None)
+                # the download has been given a path but the file that reserves it does not exist (yet)
+                out['unreserved'] = t.local_path if t.local_path and not os.path.lexists(t.local_path) else None
+                out['resume_pending'] = act['resume'] is not None and act['kind'] != 'remove'
+                out['acting'] = True               # abort / pause / remove of `who` is in progress
+                try:
+                    await getattr(client.transfers, act['kind'])(t)
+                    out['acted'] = True
+                except Exception as exc:           # InvalidStateTransition is documented
+                    out['act_refused'] = type(exc).__name__
+                finally:
+                    out['acting'] = False
+                if out['resume_pending']:
+                    await asyncio.sleep(act['resume'])
+                    try:
+                        await client.transfers.queue(t)
+                        out['resumed'] = True
+                    except Exception as exc:
+                        out['resume_refused'] = type(exc).__name__
+                    out['resume_pending'] = False
+
             def observed_calculate(remote_path):
                 configured = os.path.abspath(s.shares.download)
                 result = real_calculate(remote_path)
@@ -154,6 +244,19 @@ def run_conc_case(case, res: CaseResult):
                     chosen.append((configured, os.path.join(*result)))
                 except Exception:
                     pass
+                try:    # observation only: which download is calculating (the caller's ``transfer`` argument)
+                    caller = sys._getframe(1).f_locals.get('transfer')
+                    out['holder'] = next((i for i, t in enumerate(transfers) if t is caller and t is not None), None)
+                except Exception:
+                    out['holder'] = None
+                if act is not None and len(chosen) == act['after_call'] + 1 and 'act_task' not in out:
+                    # a download holds the path lock now: schedule the user action relative to this instant
+                    out['act_task'] = None
+                    start = lambda: out.__setitem__('act_task', asyncio.ensure_future(user_action()))  # noqa: E731
+                    if act['delay'] > 0:
+                        loop.call_later(act['delay'], start)
+                    else:
+                        loop.call_soon(start)
                 return result
             shares.calculate_download_path = observed_calculate
 
@@ -177,7 +280,11 @@ def run_conc_case(case, res: CaseResult):
             deadline = loop.time() + 60
             while loop.time() < deadline:
                 await asyncio.sleep(0.0005 if loop.time() < deadline - 58 else 0.05)
-                active = [t for t in transfers if t.state.VALUE.name in ('INITIALIZING', 'DOWNLOADING') and t.local_path]
+                # a download whose abort / pause / removal is in progress is not active any more: its task has been
+                # cancelled, only the state change (file removal on the executor) is still pending
+                active = [t for i, t in enumerate(transfers)
+                          if t.state.VALUE.name in ('INITIALIZING', 'DOWNLOADING') and t.local_path
+                          and not (out.get('acting') and i == out.get('who'))]
                 paths = [t.local_path for t in active]
                 if len(set(paths)) < len(paths):
                     shared.append((round(loop.time(), 4), sorted(paths)))
@@ -189,9 +296,16 @@ def run_conc_case(case, res: CaseResult):
                         await client.transfers.queue(t0_)     # documented user action for FAILED with a reason
                     except Exception:
                         pass
-                if all(t.state.VALUE.name in ('COMPLETE', 'FAILED') for t in transfers) and \
+                settled = ('COMPLETE', 'FAILED') if not out.get('acted') else ('COMPLETE', 'FAILED', 'ABORTED', 'PAUSED')
+                if all(t.state.VALUE.name in settled for t in transfers) and not out.get('resume_pending') and \
                         (first_fault == 'none' or len(ups[0].attempts) >= 2 or loop.time() > deadline - 50):
                     break
+            # a download that is still starting / running although nothing works on it any more
+            out['stuck'] = [(i, t.state.VALUE.name) for i, t in enumerate(transfers)
+                            if t.state.VALUE.name in ('INITIALIZING', 'DOWNLOADING')
+                            and (getattr(t, '_transfer_task', None) is None or t._transfer_task.done())]
+            if out.get('act_task') is not None:
+                out['act_task'].cancel()
             out['shared'] = shared[:3]
             out['final'] = [(t.state.VALUE.name, t.local_path) for t in transfers]
             out['files'] = []
@@ -211,11 +325,22 @@ def run_conc_case(case, res: CaseResult):
         if after != before:
             res.violate('C09/file-created-outside-download-directory', str(sorted(after - before)))
         final = out.get('final', [])
+        # root cause tag: the shared path is one that a paused download kept although its file was never created
+        unreserved = out.get('unreserved') if (act is not None and act['kind'] == 'pause') else None
+
+        def kind_for(kind, paths):
+            if unreserved in paths:
+                return 'C09/unreserved-path-kept-after-pause:' + kind.split('/', 1)[1]
+            return kind
         if out.get('shared'):
-            res.violate('C09/concurrent-downloads-share-local-path', f'{out["shared"][0]} final={final}')
+            res.violate(kind_for('C09/concurrent-downloads-share-local-path', out['shared'][0][1]),
+                        f'{out["shared"][0]} final={final} action={act}')
+        if out.get('stuck'):
+            res.violate('C09/download-stuck-without-task', f'{out["stuck"]} final={final} action={act}')
         complete_paths = [p for s_, p in final if s_ == 'COMPLETE']
         if len(set(complete_paths)) < len(complete_paths) and not out.get('shared'):
-            res.violate('C09/completed-downloads-share-local-path', str(final))
+            dup = [p for p in complete_paths if complete_paths.count(p) > 1]
+            res.violate(kind_for('C09/completed-downloads-share-local-path', dup), f'{final} action={act}')
         configured_for = {}
         for configured, p in chosen:
             configured_for[p] = configured         # the last calculation that produced p
@@ -237,7 +362,8 @@ def run_conc_case(case, res: CaseResult):
                     os.path.realpath(p) != os.path.realpath(os.path.join(expected_dir, os.path.basename(p))):
                 res.violate('C09/local-path-not-directly-in-download-directory', str(p))
             if s_ == 'COMPLETE' and out['files'][i] is False and not out.get('shared'):
-                res.violate('C09/complete-file-differs-from-source:concurrent', str(final))
+                res.violate(kind_for('C09/complete-file-differs-from-source:concurrent', [p]),
+                            f'{final} action={act}')
             if p and pre != 'none' and os.path.basename(p) == name and \
                     os.path.realpath(os.path.dirname(p)) == os.path.realpath(dl):
                 res.violate('C09/existing-file-chosen:concurrent', str(final))
@@ -251,7 +377,14 @@ def run_conc_case(case, res: CaseResult):
         same_instant = len(set(round(a + b, 6) for a, b in zip(dl_at, st_at))) < n
         res.nontrivial = True
         res.key = ['conc', name, n, dl_at, st_at, sizes, exec_delay, pre, limited, same_dir, first_fault, retry_s,
-                   switch_s, switch_rel, rel0]
+                   switch_s, switch_rel, rel0, act]
+        if act is not None and 'act_on' in out:
+            state, has_path = out['act_on']
+            res.label('conc:action:' + act['kind'], 'conc:action-on:%s:%s' % (state, 'path-chosen' if has_path else 'no-path'))
+            if out.get('act_refused'):
+                res.label('conc:action-refused')
+            if out.get('resumed'):
+                res.label('conc:action-then-queued-again')
         if switch_s is not None:
             res.label('conc:download-setting-switched')
             dirs_used = sorted({os.path.realpath(c) for c, _ in chosen})
